@@ -337,7 +337,11 @@ class Interp:
         elif k == "continue":
             raise ContinueEx()
         elif k == "return":
-            raise ReturnEx(None if s[1] is None else self.ev(s[1]))
+            v = None if s[1] is None else self.with_hoist([s[1]], lambda: self.ev(s[1]))
+            if "return-does-not-leave" in self.D and getattr(self, "in_routine", 0):
+                self.pending_return[-1] = v  # the statements after the return still run; the last return wins
+                return
+            raise ReturnEx(v)
         elif k == "label":
             self.stmt(s[2])
         else:
@@ -837,22 +841,36 @@ class Interp:
             else:
                 raise CUnsupported("parameter type %r" % (pt,))
         saved = self.scopes
+        saved_hc = self.hc
+        self.hc = {}
         self.scopes = [frame]
+        self.in_routine = getattr(self, "in_routine", 0) + 1
+        if not hasattr(self, "pending_return"):
+            self.pending_return = []
+        self.pending_return.append(None)
         try:
             try:
                 items = r.body[1] if r.body[0] == "block" else [r.body]
                 for it in items:
                     self.stmt(it)
-                ret = None
+                ret = self.pending_return[-1]
             except ReturnEx as ex:
                 ret = ex.val
         finally:
             self.scopes = saved
+            self.hc = saved_hc
+            self.in_routine -= 1
+            self.pending_return.pop()
         if r.ret == ("void",):
             return (("void",), None)
         if ret is None:
             raise CUndefined("value of a function that did not return one")
         if is_int(r.ret):
+            if "return-via-u64" in self.D and is_int(ret[0]):
+                # the value travels through the unsigned 64-bit local ret_val: zero-extended, then
+                # truncated to the declared return type
+                raw = ret[1] & mask(ret[0][1])
+                return (r.ret, wrap(raw, r.ret))
             return (r.ret, self.convert(ret, r.ret, "return"))
         raise CUnsupported("return type %r" % (r.ret,))
 
